@@ -6,7 +6,7 @@ Require Import BB.Base.Str BB.Base.Xml BB.Model.PegSyntax BB.Model.Unparse.
 Require Import BB.Gen.Grammar BB.Gen.TablesXsl.
 Require Import BB.Base.Dict BB.Model.Peg BB.Model.Types BB.Proofs.Tables BB.Proofs.EscapeLossless.
 Require Import BB.Proofs.Totality BB.Proofs.PegPlain BB.Proofs.EscapedTextParses.
-Require Import BB.Model.UnparseDoc BB.Proofs.UnparseText BB.Proofs.PegLine BB.Proofs.WrittenText.
+Require Import BB.Model.UnparseDoc BB.Proofs.UnparseText BB.Proofs.PegLine BB.Proofs.WrittenText BB.Proofs.LineRule.
 
 (* the hand-maintained keyword list of escape-prefixes covers every keyword literal of the grammar,
    except the committed gaps *)
@@ -101,6 +101,24 @@ Theorem C06_escaped_first_text_is_a_line : forall f y rest off,
   = run akn_peg (12 + f) (Ref (of_string "line")) (escape_prefixes y ++ NL :: rest) off.
 Proof. exact escaped_first_text_is_a_line. Qed.
 Print Assumptions C06_escaped_first_text_is_a_line.
+
+(* composed: the first text s of a p / list introduction / wrap-up (first_text context), as the unparser
+   writes it, followed by the line end, anywhere in any input: hier_block_element accepts it - through
+   rule line - and to_dict turns the tree into a p whose children are text nodes only, spelling s with
+   its leading whitespace trimmed and line breaks as spaces.  Text cannot turn into markup there. *)
+Theorem C06_written_first_text_is_paragraph : forall c s pre rest f f',
+  first_text c = true ->
+  let t := string_ltrim s in
+  Forall scalar t -> t <> [] -> no_ctl_start (text_out c s) = true ->
+  let e := text_out c s in
+  let inp := pre ++ e ++ NL :: rest in
+  exists rest' off' tree ds,
+    run akn_peg (26 + f) (Ref (of_string "hier_block_element")) (e ++ NL :: rest) (len_N pre) = Ok rest' off' tree
+    /\ to_dict inp (2 + f') tree = OkR (DNode (Types.S_ "content") (Types.S_ "p") None None None None None None (Some ds))
+    /\ Forall is_dtext ds
+    /\ concat (map dval ds) = nl_to_space t.
+Proof. exact written_first_text_is_paragraph. Qed.
+Print Assumptions C06_written_first_text_is_paragraph.
 
 Example C06_example_block : (length block_lits = 44)%nat /\ escape_prefixes (of_string "PART of") = of_string "\PART of"
   /\ escape_prefixes (of_string "Paris") = of_string "Paris".
